@@ -461,7 +461,7 @@ func runC14(p *core.Prog, r *core.Report) {
 		r.Check(okPar, "C14.R3", "computeStages/parity", "maps and block indexes are admitted on one parity of the layer counter and stores on the other (a layer holds only stores or only non-stores)", fmt.Sprintf("%v", parity), p.Pos(pc.fn.Pos()))
 		// stage closing
 		// (in computeStages or in the helper of its family that groups the layers into stages)
-		var stagesAppend ssa.Instruction
+		var stagesAppend, flushAfterLoop ssa.Instruction
 		closeFn := pc.fn
 		for _, member := range core.Family(pc.fn, 1) {
 			if member.Parent() != nil || stagesAppend != nil {
@@ -470,7 +470,23 @@ func runC14(p *core.Prog, r *core.Report) {
 			core.Instrs(member, func(in ssa.Instruction) {
 				if _, ok := core.IsBuiltinCall(in, "append"); ok {
 					if n, ok := in.(ssa.Value).Type().(*types.Named); ok && n.Obj().Name() == "ExecutionStages" {
-						stagesAppend, closeFn = in, member
+						// the append inside the loop over the layers; one after the loop (the flush of a pending, non-store stage) is
+						// the other way of closing on the last layer
+						inLoop := false
+						for _, l := range core.Loops(member) {
+							if l.Body[in.Block()] {
+								inLoop = true
+							}
+						}
+						if inLoop || stagesAppend == nil {
+							if !inLoop {
+								flushAfterLoop = in
+							} else {
+								stagesAppend, closeFn = in, member
+							}
+						} else {
+							flushAfterLoop = in
+						}
 					}
 				}
 			})
@@ -509,7 +525,8 @@ func runC14(p *core.Prog, r *core.Report) {
 		})
 		q := core.PathQuery{Fn: closeFn, CutEdge: func(e core.Edge) bool { return containsEdge(closeEdges, e) }}
 		_, reach := q.CanReach(nil, func(x ssa.Instruction) bool { return x == stagesAppend })
-		okAll := nStore > 0 && nLast > 0 && !reach
+		// the last layer closes its stage through the `idx == len-1` test, or through a flush of the pending stage after the loop
+		okAll := nStore > 0 && (nLast > 0 || flushAfterLoop != nil) && !reach
 		for _, e := range closeEdges {
 			first := e.From.Succs[e.Idx].Instrs[0]
 			if first != stagesAppend {
@@ -600,7 +617,8 @@ func runC14(p *core.Prog, r *core.Report) {
 		})
 		r.Check(nFlags > 0 && !carried, "C14.R4", "computeStages/inputs-at-init/per-module", "the `has an input at its initial block` flag starts false for every module (it is not carried over from the previous module examined in the same pass)", "the flag tested for a module can hold the value computed for an earlier module", p.Pos(pc.fn.Pos()))
 		// the initial-block comparison: mod init >= dep init
-		okCmp := 0
+		// (one comparison per input kind, or one comparison after the kinds have put their module name into one variable)
+		covered := map[string]bool{}
 		core.Instrs(pc.fn, func(in ssa.Instruction) {
 			bo, isBo := in.(*ssa.BinOp)
 			if !isBo || bo.Op != token.GEQ {
@@ -611,12 +629,17 @@ func runC14(p *core.Prog, r *core.Report) {
 			if okx && oky && lx.X == ly.X {
 				kx := core.Trace(lx.Index, 0)
 				ky := core.Trace(ly.Index, 0)
-				if hasFieldNamed(kx, "Name") && hasFieldNamed(ky, "ModuleName") {
-					okCmp++
+				if hasFieldNamed(kx, "Name") {
+					for f := range ky.Fields {
+						if f.Name() == "ModuleName" {
+							covered[ownerOf(f)] = true
+						}
+					}
 				}
 			}
 		})
-		r.Check(okCmp >= 2, "C14.R4", "computeStages/init-compare", "an input module counts as available when the module's initial block is >= the input's initial block (both map and store inputs)", fmt.Sprintf("%d comparisons found", okCmp), p.Pos(pc.fn.Pos()))
+		okCmp := len(covered)
+		r.Check(okCmp >= 2, "C14.R4", "computeStages/init-compare", "an input module counts as available when the module's initial block is >= the input's initial block (both map and store inputs)", fmt.Sprintf("input kinds compared: %v", keysOf(covered)), p.Pos(pc.fn.Pos()))
 	})
 
 	// ------------------------------------------------------------------ R5
